@@ -41,7 +41,7 @@ def bounds(tier):
             "weights": [False, True], "image dtype": ["complex128", "float64"],
             "recons": {"SenseRecon": ["CG", "GradientMethod", "PDHG", "ADMM"], "TotalVariationRecon": ["PDHG(default)", "ADMM"],
                        "L1WaveletRecon": ["GradientMethod(default)", "PDHG", "ADMM"]},
-            "lamda": [0, 0.05], "data": ["consistent", "noisy"], "maps": ["generic", "one coil with zero map and zero data (index 0 or last)"]}
+            "lamda": [0, 0.05], "data": ["consistent", "noisy"], "conditioning": "2 coils with binary weights dropping ~40% of k-space (6 masks; cond up to 1e5)", "maps": ["generic", "one coil with zero map and zero data (index 0 or last)"]}
 
 
 IMGS = [[2, 3], [3, 3], [4, 4], [2, 2, 3]]
@@ -79,9 +79,17 @@ def gen_cases(tier, seed):
                                     for dead in (0, 2):
                                         cases.append(dict(kind="recon", app=app, solver=solver, lamda=lam, batch_size=bs, coord=cf,
                                                           data=data, weights=wts, dead=dead))
+                                if wts and bs is None and cf is None and (solver is None or T):
+                                    for wm in (1, 2, 3, 4, 5, 6):
+                                        cases.append(dict(kind="recon", app=app, solver=solver, lamda=lam, batch_size=bs, coord=cf,
+                                                          data=data, weights=wts, nc=2, wmask=wm))
                                 if solver == "ADMM" and data == "noisy" and not wts and bs is None:
                                     cases.append(dict(kind="recon", app=app, solver=solver, lamda=lam, batch_size=bs, coord=cf,
                                                       data=data, weights=wts, rho=2.0))
+    for lam in (0, 0.05):
+        for wm in (1, 2, 3, 4, 5, 6):
+            cases.append(dict(kind="recon", app="SenseRecon", solver=None, lamda=lam, batch_size=None, coord=None,
+                              data="consistent", weights=True, nc=2, wmask=wm))
     return cases
 
 
@@ -203,9 +211,15 @@ def run_recon(case, seed):
     import sigpy.mri as mr
     viol = []
     img = [4, 4]
-    nc = 3
+    nc = case.get("nc", 3)
     c2 = dict(img=img, nc=nc, coord=case["coord"], weights=case["weights"])
     mps, coord, weights = make(c2, seed)
+    if case.get("wmask"):
+        # binary k-space weights that drop ~40% of the samples; with two coils the normal equations stay full rank but
+        # become ill-conditioned (CG's residual norm is then far from monotone)
+        rr = np.random.default_rng(case["wmask"] + seed)
+        weights = (rr.random(img) > 0.4).astype(float)
+        weights[0, 0] = weights[2, 1] = 1.0
     if coord is not None:
         # enough well-spread samples for a determined problem
         spec = dict(img=img, r=1)
@@ -249,6 +263,10 @@ def run_recon(case, seed):
         Gm = dense.dense_linop(W)
         if not dense.relerr(Gm.conj().T @ Gm, np.eye(Gm.shape[1])) <= 1e-9 or Gm.shape[0] != Gm.shape[1]:
             raise RuntimeError("Haar transform not unitary - precondition of the property not met")
+    if case.get("wmask"):
+        cnd = np.linalg.cond(Ew)
+        if not cnd < 1e5:
+            return dict(states=1, transitions=1, nontrivial=False, outcome="skipped: under-determined mask (cond %.1e)" % cnd, viol=[])
     xr, wdual, Pr, D, gap = convex.solve(Ew, yw, kind, par, Gm, lam2, None, gap_tol=1e-12)
     kw = dict(coord=coord, weights=weights, coil_batch_size=case["batch_size"], show_pbar=False, tol=0)
     if solver is not None:
